@@ -4,6 +4,9 @@ CONSTANTS
   Echo = TRUE
   MaxLen = 8
   Fixes = {}
+  Syms = {"init", "initrej", "terminate", "ping", "pong", "sub1q", "sub1s", "sub2q", "subbad", "comp1", "comp9", "unknown", "malformed", "missingid", "binary", "readerr"}
+  EngWhats = {"data", "fin", "error", "result"}
+  Extras = TRUE
   MaxIn = 4
   MaxEng = 2
   PreInit = FALSE
